@@ -15,7 +15,7 @@ import (
 
 // Chars maps character ids of JV.CharIds to text (same table as JV.Width).
 var Chars = map[string]string{"a": "a", "b": "b", "e2": "é", "w3": "世", "g4": "\U0001F600",
-	"pc": "%", "bt": "`", "qt": "\"", "bs": "\\", "nl": "\n", "sp": " ", "d1": "1"} // the last seven are used in names / enum values only
+	"pc": "%", "bt": "`", "qt": "\"", "bs": "\\", "nl": "\n", "sp": " ", "d1": "1", "us": "_", "hy": "-"} // the last nine are used in names / enum values only
 
 var charOf = func() map[rune]string {
 	m := map[rune]string{}
